@@ -156,6 +156,13 @@ def make_otc(hid):
     return f
 
 
+def make_otcany(hid):
+    def f(obj, name, old, new):
+        if name == "x":
+            record(hid, old, new)
+    return f
+
+
 def make_obs(hid):
     def f(event):
         record(hid, event.old, event.new)
@@ -172,6 +179,9 @@ def run_case(case):
         if m == "otc":
             f = make_otc(hid)
             a.on_trait_change(f, "x")
+        elif m == "otcany":
+            f = make_otcany(hid)
+            a.on_trait_change(f)
         else:
             f = make_obs(hid)
             a.observe(f, "x")
@@ -183,6 +193,8 @@ def run_case(case):
         try:
             if op[0] == "Assign":
                 a.x = POOL[op[1]]
+            elif op[0] == "Delete":
+                del a.x
             else:
                 a.x
             o = "Ok"
